@@ -21,6 +21,13 @@ Why(r) ==
                ELSE IF r.x.t # "num" \/ r.y.t # "num" THEN "bigxy.Intersection|not-a-number"
                ELSE IF Abs(r.x.q * X[3] - X[1] * Q) > 2 * Abs(X[3]) \/ Abs(r.y.q * X[3] - X[2] * Q) > 2 * Abs(X[3]) THEN "bigxy.Intersection|value" ELSE "ok")
     [] c.op = "transform" -> (IF r.after # [i \in DOMAIN c.cs |-> [k \in DOMAIN c.cs[i] |-> c.cs[i][k] + k + 10 * i]] THEN "TransformInPlace" ELSE "ok")
+    [] c.op = "layout" -> (IF r.stride # LStride(c.val) THEN "Layout.Stride" ELSE IF r.z # LZIndex(c.val) THEN "Layout.ZIndex"
+                           ELSE IF r.m # LMIndex(c.val) THEN "Layout.MIndex" ELSE IF r.name # LName(c.val) THEN "Layout.String" ELSE "ok")
+    [] c.op = "maybeempty" ->
+         LET f == c.cs[1]  allEmpty == \A k \in DOMAIN f : f[k] = 1 IN
+         (IF r.pan # "" THEN "NewPointFlatMaybeEmpty|panic"
+          ELSE IF r.empty # allEmpty THEN "NewPointFlatMaybeEmpty|emptiness"
+          ELSE IF r.n # (IF allEmpty THEN 0 ELSE Len(f)) THEN "NewPointFlatMaybeEmpty|coordinates" ELSE "ok")
     [] OTHER -> "unknown-op"
 VARIABLES i, bad
 Init == i = 1 /\ bad = 0
